@@ -10,6 +10,8 @@ in :mod:`vtlengine.ViralPropagation.sql`.
 from dataclasses import dataclass, field
 from typing import Any, Dict, List, Optional
 
+from vtlengine import _verif
+
 
 @dataclass
 class ViralPropagationRule:
@@ -80,10 +82,12 @@ def get_current_registry() -> ViralPropagationRegistry:
     global _current_registry  # noqa: PLW0603
     if _current_registry is None:
         _current_registry = ViralPropagationRegistry()
+    _verif.access("viral_registry", "r", id(_current_registry))
     return _current_registry
 
 
 def set_current_registry(registry: ViralPropagationRegistry) -> None:
     """Set the current viral propagation registry (called by Interpreter)."""
     global _current_registry  # noqa: PLW0603
+    _verif.access("viral_registry", "w", id(registry))
     _current_registry = registry
